@@ -467,8 +467,9 @@ func TestC08(t *testing.T) {
 	if e1Replayer(scs, col) {
 		return
 	}
-	item := 0
-	for _, sc := range scs {
-		e1Explore(sc, col, &item)
-	}
+	e1ExploreTiers(c08Scenarios, func(scs []*e1Scenario) {
+		for _, sc := range scs {
+			sc.keepSnaps = true
+		}
+	}, col)
 }
